@@ -162,6 +162,17 @@ class ProtoExporter:
         # ...
         pmod = export_external_module(emod)
 
+        # A package declares each external module once.
+        # Several `ExternalModule` objects may stand for one (the PDK packages define theirs twice), if they agree.
+        for prior in self.pkg.ext_modules:
+            if prior.name == pmod.name:
+                if prior != pmod:
+                    msg = f"Cannot serialize {emod}: conflicting definitions of external module "
+                    msg += f"`{pmod.name.domain}.{pmod.name.name}` in one design"
+                    raise RuntimeError(msg)
+                self.ext_modules[id(emod)] = prior
+                return prior
+
         # Store references to the result, and return it
         self.ext_modules[id(emod)] = pmod
         self.pkg.ext_modules.append(pmod)
